@@ -45,7 +45,13 @@ type orderExplorer struct {
 	filter func(site string) bool
 	log    []string
 	capped bool
+	// once: every visit of a site within one execution uses the order
+	// chosen at its first visit (one choice point per site and execution)
+	once  bool
+	cache map[string][]int
 }
+
+func (o *orderExplorer) reset() { o.log = o.log[:0]; o.cache = nil }
 
 func (o *orderExplorer) hook(site string, n int) []int {
 	if o.ch == nil || !o.filter(site) || n < 2 {
@@ -55,10 +61,39 @@ func (o *orderExplorer) hook(site string, n int) []int {
 		o.capped = true
 		return nil
 	}
+	if o.once {
+		if p, ok := o.cache[site]; ok && len(p) == n {
+			return p
+		}
+	}
 	k := o.ch.Choose(factorial(n))
 	p := perms(n)[k]
 	o.log = append(o.log, fmt.Sprintf("%s:%v", site, p))
+	if o.once {
+		if o.cache == nil {
+			o.cache = map[string][]int{}
+		}
+		o.cache[site] = p
+	}
 	return p
+}
+
+// underAllOrders runs f once for every iteration order of the map ranges at
+// sites accepted by filter (one order per site and execution) and returns the
+// number of executions.
+func underAllOrders(filter func(site string) bool, f func(orders []string) bool) (int64, bool) {
+	ch := explore.New(-1)
+	oe := &orderExplorer{ch: ch, filter: filter, once: true}
+	verifrt.OrderHook = oe.hook
+	defer func() { verifrt.OrderHook = nil }()
+	for ch.Begin() {
+		oe.reset()
+		if !f(oe.log) {
+			ch.Begin()
+			break
+		}
+	}
+	return ch.Executions, oe.capped
 }
 
 func setKey(words []string) string {
@@ -317,12 +352,40 @@ func wlOrderRun(which string) func(c *core.Ctx) {
 			}
 		}
 		rec()
+		// every sequence of length 4 (thorough 5) over the two twin pairs
+		// (order of twins in the INPUT matters to slice-based normalisers)
+		tw := []string{"ab", "Ab", "polish", "Polish"}
+		twLen := 4
+		if c.Thorough() {
+			twLen = 5
+		}
+		var rec2 func()
+		rec2 = func() {
+			if len(seq) == twLen {
+				h := fnv.New32a()
+				h.Write([]byte(setKey(seq)))
+				if c.MineKey(int(h.Sum32() % 9973)) {
+					s.input(append([]string{}, seq...))
+				}
+				return
+			}
+			for _, w := range tw {
+				seq = append(seq, w)
+				rec2()
+				seq = seq[:len(seq)-1]
+			}
+		}
+		seq = seq[:0]
+		rec2()
 		// a few longer inputs with many twins
 		for _, in := range [][]string{
 			{"ab", "Ab", "cd", "Cd", "polish", "Polish"},
 			{"Polish", "Polish", "polish", "polish", "ab"},
 			{"éa", "Éa", "Éa", "4", "4"},
 			{"x-y", "X-Y", "ab"},
+			{"Polish", "Ab", "Éa", "polish", "ab", "éa"},
+			{"polish", "ab", "éa", "Polish", "Ab", "Éa"},
+			{"Éa", "ab", "Polish", "éa", "Ab", "polish"},
 		} {
 			h := fnv.New32a()
 			h.Write([]byte(setKey(in)))
@@ -354,7 +417,7 @@ func init() {
 		ID:    "C08",
 		Level: "model_checking",
 		Build: "inst",
-		Rule: "every input sequence of length 1-3 (thorough 1-4) over the 8-word universe {ab,cd,Polish,polish,Ab,4,éa,Éa} (all permutations and repetitions of every sub-multiset) x EVERY iteration order of the map ranges inside NewWordList (instrumented copy; full product of the loops' orders for <=3 distinct words, one loop deviating at a time otherwise) x 7 scheme strings x lengths 1-3 x 3-6 separator settings, Entropy() called 3 times under 2 random streams; " +
+		Rule: "every input sequence of length 1-3 (thorough 1-4) over the 8-word universe {ab,cd,Polish,polish,Ab,4,éa,Éa} (all permutations and repetitions of every sub-multiset), every sequence of length 4 (thorough 5) over the twin pairs {ab,Ab,polish,Polish}, 7 longer inputs with up to three twin pairs x EVERY iteration order of the map ranges inside NewWordList (instrumented copy; full product of the loops' orders for <=3 distinct words, one loop deviating at a time otherwise) x 7 scheme strings x lengths 1-3 x 3-6 separator settings, Entropy() called 3 times under 2 random streams; " +
 			"oracle: documented formula within 4 float32 ulps and bit-identical for the same word set across all orders, permutations, repetitions, calls and streams; non-trivial = distinct (word set, recipe) pairs",
 		Assume:      []string{"Go may iterate a map in any order (spec); the instrumented range visits the keys in the chosen order and skips entries deleted meanwhile, as the spec prescribes", "iteration orders inside golang-set are left to the runtime"},
 		Run:         wlOrderRun("C08"),
